@@ -605,9 +605,14 @@ func (s *CatSc) checkOut(ro runOut, st *core.Stats, add func(clause, key, format
 			}
 			linePos[k] = n
 			n++
-			if e.t < byK[k].start || e.t > byK[k].end {
-				add("out-lines", "outside-call", "message %d reached the helper at t=%d, outside its Send call (%d..%d)", k, e.t, byK[k].start, byK[k].end)
+			if e.t < byK[k].start {
+				add("out-lines", "outside-call", "message %d reached the helper at t=%d, before its Send call (%d..%d) had begun", k, e.t, byK[k].start, byK[k].end)
 				return
+			}
+			if e.t > byK[k].end {
+				// a driver may queue: the property does not say that the line is with the
+				// helper when Send returns (with a real pipe it never is)
+				st.Probe("out:line-reached-the-helper-after-its-Send-had-returned")
 			}
 		}
 	}
